@@ -38,8 +38,8 @@ pub fn write_and_log(out: &mut TraceOut, cfg: &Cfg, entries: &[Entry]) -> Option
         }
         None => json!({"size": 0, "trailer": [], "blocks": [], "slack": 0, "error": "not finished"}),
     };
-    out.ev(json!({"ev": "Wrote", "codec": cfg.codec, "levels": cfg.levels, "bs": cfg.block_size,
-        "k": cfg.interval, "level": cfg.level, "inserts": ins, "ins": outcome.ins, "fin": outcome.fin,
+    out.ev(json!({"ev": "Wrote", "codec": cfg.codec, "levels": cfg.levels, "bs": cfg.logged_block_size(),
+        "k": cfg.interval.min(1 << 30), "level": cfg.level, "inserts": ins, "ins": outcome.ins, "fin": outcome.fin,
         "detail": outcome.detail, "file": file}));
     outcome.bytes
 }
